@@ -1,13 +1,15 @@
 import GroupbyVerif.Model.Nanops
 import GroupbyVerif.Lemmas.Reducers
 import GroupbyVerif.Bridge
+import GroupbyVerif.Lemmas.Fold
+import GroupbyVerif.Props.C04
 
 /-!
 # C20 — Stand-alone array helpers agree with their NumPy definitions
 -/
 
 namespace GV.C20
-open GV
+open GV GV.C04
 
 /-- the two-argument reducers the driver executes (regenerated from the source) are the modelled ones -/
 theorem generated_rops_eq_model :
@@ -235,5 +237,119 @@ theorem searchLeft_bin (bins : List Int) (hs : bins.Pairwise (· ≤ ·)) (x : I
           omega
 
 example : bitMask [true, false, true] = 5 ∧ labelColumns 3 5 = [0, 2] ∧ searchLeft [3, 6, 9] 6 = 1 := by decide
+
+/-! ## `reduce_1d` with threads, end to end (float view) -/
+
+/-- the numbers among float-view cells -/
+def numsOf (l : List Val) : List Int := l.filterMap fun v => match v with | .num n => some n | .nan => none
+
+theorem nonNull_f (l : List Val) : nonNull .f l = (numsOf l).map Val.num := by
+  induction l with
+  | nil => rfl
+  | cons v vs ih =>
+    cases v with
+    | nan => simp [nonNull, numsOf, isNull, List.filter_cons] at ih ⊢; exact ih
+    | num n => simp [nonNull, numsOf, isNull, List.filter_cons] at ih ⊢; exact ih
+
+theorem numsOf_flatten (ls : List (List Val)) : numsOf ls.flatten = (ls.map numsOf).flatten := by
+  unfold numsOf
+  rw [List.filterMap_flatten]
+
+theorem mapM_some {α β : Type} (g : α → β) (l : List α) : l.mapM (fun c => some (g c)) = some (l.map g) := by
+  induction l with
+  | nil => rfl
+  | cons x xs ih => simp [List.mapM_cons, ih]
+
+theorem fold_sum_nums (xs : List Int) : (xs.map Val.num).foldl (ROps.sum .f) (.num 0) = .num xs.sum := by
+  have := specSum_char xs
+  have hf : ROps.sum Kind.f = Val.add := by funext a b; rfl
+  rw [hf]
+  simpa [sumVals] using this
+
+theorem fold_count_nums (xs : List Int) : (xs.map Val.num).foldl (ROps.count .f) (.num 0) = .num xs.length := by
+  suffices H : ∀ a : Int, (xs.map Val.num).foldl (ROps.count .f) (.num a) = .num (a + xs.length) by simpa using H 0
+  induction xs with
+  | nil => intro a; simp
+  | cons x xs ih =>
+    intro a
+    simp only [List.map_cons, List.foldl_cons, ROps.count, Val.add, Val.ofInt, List.length_cons]
+    rw [ih]; congr 1; push_cast; omega
+
+/-- **`reduce_1d("sum")` with any number of threads** (float view, `skipna=True`): the per-chunk sums of the
+`array_split` chunks, added up, are the NumPy `nansum` of the whole array -/
+theorem reduce1d_sum_threads (arr : List Val) (threads : Nat) (ht : 0 < threads) :
+    reduce1d modelROps .sum .f arr true threads = some (specNan .sum .f arr) := by
+  have hspec : specNan .sum .f arr = .num (numsOf arr).sum := by
+    simp only [specNan, nonNull_f, specSum_char]
+  rw [hspec]
+  unfold reduce1d
+  simp only [show (NanOp.sum = NanOp.count) = False by simp, if_false]
+  by_cases h1 : threads = 1
+  · simp only [h1, if_true, nbReduce, NanOp.initial, NanOp.fn, modelROps, nonNull_f, fold_sum_nums]
+  · have h0 : threads ≠ 0 := by omega
+    simp only [h1, h0, if_false, NanOp.initial, NanOp.fn, NanOp.chunkOp, modelROps, nbReduce, if_true]
+    rw [mapM_some (fun c => (nonNull Kind.f c).foldl (ROps.sum Kind.f) (Val.num 0))]
+    simp only
+    have hparts : (arraySplit arr threads).map (fun c => (nonNull Kind.f c).foldl (ROps.sum Kind.f) (Val.num 0))
+        = ((arraySplit arr threads).map (fun c => (numsOf c).sum)).map Val.num := by
+      rw [List.map_map]
+      apply List.map_congr_left
+      intro c _
+      simp [nonNull_f, fold_sum_nums]
+    rw [hparts]
+    have hnn : nonNull Kind.f (((arraySplit arr threads).map (fun c => (numsOf c).sum)).map Val.num)
+        = ((arraySplit arr threads).map (fun c => (numsOf c).sum)).map Val.num := by
+      rw [nonNull_f]
+      congr 1
+      simp [numsOf, List.filterMap_map, Function.comp_def]
+    rw [hnn, fold_sum_nums]
+    congr 2
+    have := arraySplit_flatten arr threads ht
+    conv => rhs; rw [← this, numsOf_flatten]
+    induction (arraySplit arr threads) with
+    | nil => rfl
+    | cons c cs ih => simp [ih]
+
+/-- **`reduce_1d("count")` with any number of threads**: the per-chunk counts of non-null cells add up to the number
+of non-null cells, whatever `skipna` says -/
+theorem reduce1d_count_threads (arr : List Val) (skipna : Bool) (threads : Nat) (ht : 0 < threads) :
+    reduce1d modelROps .count .f arr skipna threads = some (specNan .count .f arr) := by
+  have hspec : specNan .count .f arr = .num (numsOf arr).length := by
+    simp only [specNan, nonNull_f, List.length_map]
+  rw [hspec]
+  unfold reduce1d
+  simp only [if_true]
+  by_cases h1 : threads = 1
+  · simp only [h1, if_true, nbReduce, NanOp.initial, NanOp.fn, modelROps, nonNull_f, fold_count_nums]
+  · have h0 : threads ≠ 0 := by omega
+    simp only [h1, h0, if_false, NanOp.initial, NanOp.fn, NanOp.chunkOp, modelROps, nbReduce, if_true]
+    rw [mapM_some (fun c => (nonNull Kind.f c).foldl (ROps.count Kind.f) (Val.num 0))]
+    simp only
+    have hparts : (arraySplit arr threads).map (fun c => (nonNull Kind.f c).foldl (ROps.count Kind.f) (Val.num 0))
+        = ((arraySplit arr threads).map (fun c => ((numsOf c).length : Int))).map Val.num := by
+      rw [List.map_map]
+      apply List.map_congr_left
+      intro c _
+      simp [nonNull_f, fold_count_nums]
+    rw [hparts]
+    have hnn : nonNull Kind.f (((arraySplit arr threads).map (fun c => ((numsOf c).length : Int))).map Val.num)
+        = ((arraySplit arr threads).map (fun c => ((numsOf c).length : Int))).map Val.num := by
+      rw [nonNull_f]
+      congr 1
+      simp [numsOf, List.filterMap_map, Function.comp_def]
+    have hfold : (if skipna = true then (nonNull Kind.f (((arraySplit arr threads).map (fun c => ((numsOf c).length : Int))).map Val.num)).foldl (ROps.sum Kind.f) (Val.num 0)
+        else (((arraySplit arr threads).map (fun c => ((numsOf c).length : Int))).map Val.num).foldl (ROps.sum Kind.f) (Val.num 0))
+        = Val.num (((arraySplit arr threads).map (fun c => ((numsOf c).length : Int))).sum) := by
+      cases skipna
+      · simp only [Bool.false_eq_true, if_false]; exact fold_sum_nums _
+      · simp only [if_true]; rw [hnn]; exact fold_sum_nums _
+    rw [hfold]
+    congr 2
+    have := arraySplit_flatten arr threads ht
+    conv => rhs; rw [← this, numsOf_flatten]
+    induction (arraySplit arr threads) with
+    | nil => rfl
+    | cons c cs ih => simp [ih]
+
 
 end GV.C20
